@@ -41,7 +41,8 @@ def wait_obls(tier, timed):
 
 
 def obligations(tier):
-    return wait_obls(tier, False)
+    # the timed variant belongs to this property as well (timed waits must not damage the queue for untimed waiters)
+    return wait_obls(tier, False) + wait_obls(tier, True)
 
 MANIFEST_ENTRY = {
     "engine": "cbmc-unit+pps",
